@@ -199,7 +199,7 @@ def assemble(sess, sp, proof):
         for g in r['globals']: globs[g] = u
         for k, v in r['rules'].items(): a.rules[k] = a.rules.get(k, 0) + v
         f, bo, eo, h = r['srchash']
-        a.functions.append(dict(function=cn, source=f, line=r['line'], byte_range=[bo, eo], sha256=h, loops=r['loops'],
+        a.functions.append(dict(function=cn, tu=tu, source=f, line=r['line'], byte_range=[bo, eo], sha256=h, loops=r['loops'],
                                 rules=r['rules'], role='enforced' if cn == proof.enforce else 'body'))
     body_names = set(b[0] for b in bodies)
     out = [cxx2c.C_PRELUDE, main_unit.types]
